@@ -117,14 +117,61 @@ def run(chk):
         warnings.simplefilter('ignore')
         for (a, b) in ((3, 4), (12, 5), (20, 21)):
             prev = None
-            for d in range(-16, 17):
+            for d in list(range(-60, -16, 4)) + list(range(-16, 17)) + list(range(20, 61, 4)):      # up to three decades apart: probability 0 resp. 1
                 chk.evals(1)
                 g = float(FailureProbability(100.0, b / 100.0).pf_norm_load(10.0 ** (2 + d / 20.0), a / 100.0))
                 g2 = float(FailureProbability(10.0 ** (2 - d / 20.0), b / 100.0).pf_norm_load(100.0, a / 100.0))
                 if not (-1e-12 <= g <= 1.0 + 1e-12) or (prev is not None and g < prev - 1e-12) or abs(g - g2) > 1e-9 + 1e-5 * min(g, 1 - g):
                     chk.violation('failure probability not increasing with the load median / not decreasing with the strength median / outside [0, 1]',
                                   {'load_std': a / 100.0, 'strength_std': b / 100.0, 'log10_load_over_strength': d / 20.0}, prev, [g, g2], part='monotone')
+                if (d >= 40 and g < 1.0 - 1e-9) or (d <= -40 and g > 1e-9):
+                    chk.violation('failure probability for load and strength two decades apart is not 1 resp. 0', {'load_std': a / 100.0, 'strength_std': b / 100.0, 'log10_load_over_strength': d / 20.0}, 1.0 if d > 0 else 0.0, g, part='monotone')
                 prev = g
+    # call histories on ONE kept FailureProbability object (HeldCalls.tla): valid calls, a call that raises, then valid calls again
+    res = tlc.run(os.path.join(SPEC, 'meanstress', 'MC_HeldCalls.tla'), os.path.join(SPEC, 'meanstress', 'MC_HeldCalls_failprob.cfg'), dump=True, timeout=600)
+    chk.tlc('MC_HeldCalls_failprob.cfg', res, 'call histories on a kept FailureProbability object: every answer as from a fresh object, also after a call that raised')
+    if res.violated:
+        chk.machinery.append('model invariant %s violated: %s' % (res.violated, res.trace[-1:]))
+    if res.dump_path and os.path.exists(res.dump_path):
+        from ..tlaparse import parse_dump
+        from scipy.stats import norm
+        STRENGTH = {'s100': (100.0, 0.04), 's300': (300.0, 0.1)}
+        LOADS = {'l1': 80.0, 'l2': 250.0}
+
+        def ask(fp, what, L):
+            try:
+                if what == 'simple':
+                    return float(fp.pf_simple_load(L))
+                if what == 'norm':
+                    return float(fp.pf_norm_load(L, 0.03))
+                if what == 'bad':        # an array of scatters: raises inside the integration on the unchanged tree as well
+                    return float(fp.pf_norm_load(L, np.array([0.03, 0.05])))
+                x = np.linspace(np.log10(L) - 0.4, np.log10(L) + 0.4, 801)
+                return float(fp.pf_arbitrary_load(x, norm.pdf(x, loc=np.log10(L), scale=0.03)))
+            except Exception as ex:
+                return 'raised ' + type(ex).__name__
+        nh = 0
+        with warnings.catch_warnings():
+            warnings.simplefilter('ignore')
+            fresh = {(o, w, g): ask(FailureProbability(*STRENGTH[o]), w, LOADS[g]) for o in STRENGTH for w in ('simple', 'norm', 'bad', 'arbitrary') for g in LOADS}
+            for st in parse_dump(res.dump_path):
+                hist = [tuple(c) for c in st['hist']]
+                if len(hist) < 2:
+                    continue
+                nh += 1
+                fp = FailureProbability(*STRENGTH[st['obj']])
+                for k, (g, w) in enumerate(hist):
+                    got = ask(fp, w, LOADS[g])
+                    want = fresh[(st['obj'], w, g)]
+                    if got != want and not (isinstance(got, float) and isinstance(want, float) and abs(got - want) <= 1e-12):
+                        chk.violation('call %d on a kept FailureProbability object answers differently from a fresh object (state carried between calls)' % (k + 1),
+                                      {'strength': STRENGTH[st['obj']], 'calls_load_kind': [list(c) for c in hist]}, want, got, part='held')
+                        break
+                else:
+                    chk.nontrivial(('held', st['obj'], tuple(hist)))
+        os.remove(res.dump_path)
+        chk.evals(nh)
+        chk.part('held', histories=nh)
     chk.cov['rule'] = ('TLC enumerates strength medians x load/strength median ratios (steps of 1/20 decade) x scatter pairs that are legs of Pythagorean triples (in 1/100 decade; leg 0 = deterministic load), '
                        'for which the probit of the analytic failure probability is an exact rational, and proves the order/mirror/limit laws on it; every state is evaluated through FailureProbability '
                        '(pf_simple_load, pf_norm_load incl. explicit limits and vanishing load scatter, pf_arbitrary_load on sampled log-normal densities of two resolutions). '
